@@ -144,7 +144,7 @@ XMutators ==
       [op |-> "reload", mode |-> "eps"] }
     \cup { [op |-> "copy_from", from |-> 1, to |-> 0, n |-> BLen] @@ o : o \in OtherMenu }
     \cup { [op |-> "chunks", c |-> c, acts |-> ChunkActs0(c)] :
-              c \in (IF width = 0 THEN {} ELSE {IF (WW % width) = 0 THEN WW \div width ELSE WW}) }
+              c \in (IF width = 0 THEN {} ELSE {IF (WW % width) = 0 THEN WW \div width ELSE WW, BLen + 1}) }
 
 \* observers appended to every exported history (all are checked by the trace spec)
 Battery ==
@@ -156,6 +156,8 @@ Battery ==
            [op |-> "eq_other", owidth |-> width, olen |-> BLen, onw |-> nw, ostore |-> Asc(store \cap Low(BitLen))],
            [op |-> "eq_other", owidth |-> width, olen |-> BLen, onw |-> nw,
             ostore |-> Asc((store \cap Low(BitLen)) \cup Rng(BitLen, nw * WW))],
+           \* one element longer over the same storage: never equal
+           [op |-> "eq_other", owidth |-> width, olen |-> BLen + 1, onw |-> nw + 1, ostore |-> Asc(store)],
            [op |-> "copy_to", from |-> 0, to |-> IF BLen > 0 THEN 1 ELSE 0, n |-> BLen,
             olen |-> BLen, onw |-> nw, ostore |-> Asc(Low(nw * WW) \ store)],
            [op |-> "mem_size"]>>
